@@ -138,6 +138,24 @@ theorem assembleUnit_is_transferFields (unit : List Bin) (runs : List Nat)
     rw [he]
     rfl
 
+/-- the oracle that judges the rows of the real `transfer_fields` (`transferSpec`: per row, on its own span, the three
+    cases above) accepts every table the model returns — so a row the oracle rejects differs from the model -/
+theorem fallback_model_meets_row_oracle (hw : Bool) (cn : List Bin) (segs out : List SegO)
+    (h : transferFields hw cn segs = .table out) : transferSpec hw cn out = [] := by
+  cases cn with
+  | nil => exact absurd h (by simp [transferFields])
+  | cons f t =>
+    have h' : (if segs.isEmpty then TransferOut.nullRow (nullSegment f.chrom f.s (((f :: t).getLast?).getD f).e)
+        else TransferOut.table ((stretchEnds f (((f :: t).getLast?).getD f) segs).map
+          (if hw then aggregate (f :: t) else aggregateNW (f :: t)))) = .table out := h
+    split at h'
+    · exact absurd h' (by simp)
+    · injection h' with h'
+      subst h'
+      cases hw
+      · exact transferSpec_map_aggregateNW _ _
+      · exact transferSpec_map_aggregate _ _
+
 /-! ### non-vacuity -/
 
 /-- a segment over two zero-weight bins (depths 7 and 9): weight 0, depth 0 — and the hypothesis of
@@ -171,5 +189,13 @@ example :
     transferFields true [] [g] = .unchanged [g] ∧
     transferFields false cn [] = .nullRow ⟨"chr1", 5, 20, "-", 0, 0, 0, 0⟩ ∧
     transferFields false cn [g] = .table [⟨"chr1", 5, 20, "A", 3, 1, 2, 8⟩] := by decide +kernel
+
+/-- the row oracle is not trivially empty: depth 8 on a zero-weight segment, or weight 1 for two unweighted bins, is
+    rejected -/
+example :
+    let cn : List Bin := [ ⟨"chr1", 0, 10, "A", 0, 0, 7, true⟩, ⟨"chr1", 10, 20, "A", 0, 0, 9, true⟩ ]
+    transferSpec true cn [⟨"chr1", 0, 20, "A", 0, 2, 0, 8⟩] = ["zero_weight_segment_has_depth_zero"] ∧
+    transferSpec false cn [⟨"chr1", 0, 20, "A", 0, 2, 1, 8⟩] = ["no_weight_column_counts_bins_and_averages"] ∧
+    transferSpec false cn [⟨"chr1", 0, 20, "A", 0, 2, 2, 8⟩] = [] := by decide +kernel
 
 end CnvVerif.C03
